@@ -122,11 +122,12 @@ def view_class(v):
 
 # ----------------------------------------------------------------------------- the dataset
 def attr_names(nd):
-    return ['x', 'n'] + ['p%d' % i for i in range(nd)] + ['w%d' % i for i in range(nd)] + ['d', 'g']
+    return ['x', 'n'] + ['p%d' % i for i in range(nd)] + ['w%d' % i for i in range(nd)] + ['d', 'g', 'q']
 
 
 def attr_kind(name):
-    return {'x': 'stored', 'n': 'stored-int', 'p': 'pixel', 'w': 'world', 'd': 'derived', 'g': 'derived-func'}[name[0]]
+    return {'x': 'stored', 'n': 'stored-int', 'p': 'pixel', 'w': 'world', 'd': 'derived', 'g': 'derived-func',
+            'q': 'derived-parsed'}[name[0]]
 
 
 def g_func(a):
@@ -168,6 +169,12 @@ def make_data(shape, pal):
     data.add_component_link(ComponentLink([cids['n']], ComponentID('g'), using=g_func))
     cids['g'] = data.id['g']
     vals['g'] = vals['n'] * 2 + 1
+    # ... and one defined by a parsed text expression (so that parsed expressions can nest)
+    from glue.core.parse import ParsedCommand, ParsedComponentLink
+    qid = ComponentID('q')
+    data.add_component_link(ParsedComponentLink(qid, ParsedCommand('{x} * 0.5 + 1', {'x': cids['x']})))
+    cids['q'] = qid
+    vals['q'] = vals['x'] * 0.5 + 1
     return data, cids, vals
 
 
@@ -315,7 +322,7 @@ def case_inputs(case):
 
 
 COARSE = {'stored': 'stored', 'stored-int': 'stored', 'pixel': 'coord', 'world': 'coord',
-          'derived': 'derived', 'derived-func': 'derived-func'}
+          'derived': 'derived', 'derived-func': 'derived-func', 'derived-parsed': 'derived-parsed'}
 
 
 def operand_class(case):
@@ -452,7 +459,7 @@ def mode_i_cases(tier):
             for args in itertools.product(names, repeat=nin):
                 out.append(dict(fam='func', kind='func', shape=shape, func=fname, args=list(args), views='full'))
         # parsed
-        pnames = names if (t or nd < 3) else ['x', 'p0', wl, 'd']
+        pnames = names if (t or nd < 3) else ['x', 'p0', wl, 'd', 'q']
         for cmd in TEMPLATES[0]:
             out.append(dict(fam='parsed', kind='parsed', shape=shape, cmd=cmd, tags={}, views='full'))
         for tpl in TEMPLATES[1]:
